@@ -69,29 +69,57 @@ func vpInfoOf(n *vpNode) os.FileInfo {
 
 func vpNotExist(op, p string) error { return &os.PathError{Op: op, Path: p, Err: os.ErrNotExist} }
 
-// vpResolve follows symlinks (in the last component; directories of the model
-// are never links).
-func vpResolve(p string) (string, *vpNode) {
-	for hops := 0; hops < 8; hops++ {
-		n := vpFS[p]
-		if n == nil {
-			return p, nil
+// vpWalkPath resolves a path component by component, following symbolic links
+// in directories and - if followLast - in the last component; it returns the
+// resolved name and the node there (nil if there is none).
+func vpWalkPath(p string, followLast bool) (string, *vpNode) {
+	p = path.Clean(p)
+	for hops := 0; hops < 16; hops++ {
+		if p == "/" {
+			return p, vpFS[p]
 		}
-		if n.kind != 3 {
-			return p, n
+		// resolve the parent first
+		parts := strings.Split(strings.TrimPrefix(p, "/"), "/")
+		cur := ""
+		restart := false
+		for i, part := range parts {
+			next := cur + "/" + part
+			n := vpFS[next]
+			last := i == len(parts)-1
+			if n != nil && n.kind == 3 && (!last || followLast) {
+				target := n.target
+				if !path.IsAbs(target) {
+					target = path.Join(cur, target)
+					if cur == "" {
+						target = "/" + n.target
+					}
+				}
+				rest := strings.Join(parts[i+1:], "/")
+				p = path.Clean(target + "/" + rest)
+				restart = true
+				break
+			}
+			if n == nil {
+				if last {
+					return next, nil
+				}
+				return path.Clean(next + "/" + strings.Join(parts[i+1:], "/")), nil
+			}
+			cur = next
 		}
-		if path.IsAbs(n.target) {
-			p = path.Clean(n.target)
-		} else {
-			p = path.Clean(path.Join(path.Dir(p), n.target))
+		if !restart {
+			return cur, vpFS[cur]
 		}
 	}
 	return p, nil
 }
 
+// vpResolve follows symbolic links everywhere in the path.
+func vpResolve(p string) (string, *vpNode) { return vpWalkPath(p, true) }
+
 //verif:stub os.Lstat
 func vpLstat(name string) (os.FileInfo, error) {
-	if n := vpFS[path.Clean(name)]; n != nil {
+	if _, n := vpWalkPath(name, false); n != nil {
 		return vpInfoOf(n), nil
 	}
 	return nil, vpNotExist("lstat", name)
@@ -107,7 +135,7 @@ func vpStat(name string) (os.FileInfo, error) {
 
 //verif:stub os.Readlink
 func vpReadlink(name string) (string, error) {
-	if n := vpFS[path.Clean(name)]; n != nil && n.kind == 3 {
+	if _, n := vpWalkPath(name, false); n != nil && n.kind == 3 {
 		return n.target, nil
 	}
 	return "", errors.New("readlink " + name + ": invalid argument")
@@ -143,7 +171,13 @@ func vpUtilMkdirAll(p string) error { return vpMkdirAll(p) }
 
 //verif:stub os.Symlink
 func vpSymlink(oldname, newname string) error {
-	newname = path.Clean(newname)
+	if strings.HasSuffix(newname, "/") {
+		// (what symlink(2) answers for a name with a trailing slash)
+		return &os.LinkError{Op: "symlink", Old: oldname, New: newname, Err: os.ErrNotExist}
+	}
+	if real, _ := vpWalkPath(path.Dir(path.Clean(newname)), true); true {
+		newname = path.Join(real, path.Base(path.Clean(newname)))
+	}
 	if vpFS[newname] != nil {
 		return &os.LinkError{Op: "symlink", Old: oldname, New: newname, Err: os.ErrExist}
 	}
@@ -157,6 +191,12 @@ func vpSymlink(oldname, newname string) error {
 //verif:stub os.Rename
 func vpRename(oldpath, newpath string) error {
 	oldpath, newpath = path.Clean(oldpath), path.Clean(newpath)
+	if real, _ := vpWalkPath(path.Dir(oldpath), true); true {
+		oldpath = path.Join(real, path.Base(oldpath))
+	}
+	if real, _ := vpWalkPath(path.Dir(newpath), true); true {
+		newpath = path.Join(real, path.Base(newpath))
+	}
 	n := vpFS[oldpath]
 	if n == nil {
 		return &os.LinkError{Op: "rename", Old: oldpath, New: newpath, Err: os.ErrNotExist}
@@ -165,7 +205,21 @@ func vpRename(oldpath, newpath string) error {
 		return &os.LinkError{Op: "rename", Old: oldpath, New: newpath, Err: os.ErrNotExist}
 	}
 	if n.kind == 2 {
-		panic("file-system model: directories are not renamed by the code under test")
+		// a directory moves with everything below it
+		if vpFS[newpath] != nil {
+			return &os.LinkError{Op: "rename", Old: oldpath, New: newpath, Err: os.ErrExist}
+		}
+		moved := map[string]*vpNode{}
+		for q, m := range vpFS {
+			if q == oldpath || (len(q) > len(oldpath) && q[:len(oldpath)] == oldpath && q[len(oldpath)] == '/') {
+				moved[newpath+q[len(oldpath):]] = m
+				delete(vpFS, q)
+			}
+		}
+		for q, m := range moved {
+			vpFS[q] = m
+		}
+		return nil
 	}
 	delete(vpFS, oldpath)
 	vpFS[newpath] = n
@@ -711,5 +765,142 @@ func H_C05_postProcessResumed(n0, n1, moved int) {
 			verifAssert(n != nil && n.kind == 1 && n.inode == inodes[r][c], "C05/C13: the resumed run designates the same file as an uninterrupted one")
 			verifAssert(strings.HasPrefix(q, "/ps/outs/"), "C05/C13: the resumed run reports the file under outs/")
 		}
+	}
+}
+
+// ---- a directory (path) output ----
+
+const vpPathSrc = `
+filetype txt;
+
+stage S(
+    in  int  x,
+    out path dir,
+    out txt  inner,
+    src comp "bin",
+)
+
+pipeline P(
+    in  int  x,
+    out path dir,
+    out txt  inner,
+)
+{
+    call S(
+        x = self.x,
+    )
+
+    return (
+        dir   = S.dir,
+        inner = S.inner,
+    )
+}
+
+call P(
+    x = 1,
+)
+`
+
+func vpPathGraph() *Pipestance {
+	disableUniquification = false
+	return verifCached("vpPathGraph", func() any {
+		vpFS = map[string]*vpNode{}
+		rt := &Runtime{Config: &RuntimeOptions{JobMode: "local", VdrMode: VdrDisable}, mrjob: "/m/mrjob", adaptersPath: "/m/adapters"}
+		_, _, ps, err := rt.instantiatePipeline([]byte(vpPathSrc), "/m/p.mro", "ps", "/ps", nil, "none", nil, false, true, context.Background())
+		if err != nil {
+			panic("fixture does not instantiate: " + err.Error())
+		}
+		return ps
+	}).(*Pipestance)
+}
+
+// vpReadThrough: the file reached by reading path p the way a user of the
+// outs directory would (following links).
+func vpReadThrough(p string) int {
+	if _, n := vpResolve(path.Clean(p)); n != nil && n.kind == 1 {
+		return n.inode
+	}
+	return 0
+}
+
+// H_C13_pathOutput(variant): the top-level output `dir` is a directory the
+// stage wrote inside its files/ directory, holding a.txt.
+//
+//	0: nothing else         1: the stage reported it with a trailing slash
+//	2: dir/link.txt -> a.txt (a relative link inside the directory)
+//	3: dir/link.txt -> ../other.txt (a relative link leaving the directory)
+//	4: a second output, inner, is the file dir/a.txt itself
+//
+//	C13: the directory is available under outs/dir with the content the stage
+//	     wrote - every name inside it reads the same file as before - and the
+//	     rewritten _outs points at it.
+func H_C13_pathOutput(variant int) {
+	ps := vpPathGraph()
+	vpFS = map[string]*vpNode{}
+	vpWritten = nil
+	for _, d := range []string{"/ps", "/ps/P", "/ps/P/S", "/ps/P/S/fork0", vpFilesDir, vpFilesDir + "/dir"} {
+		vpFS[d] = &vpNode{kind: 2}
+	}
+	vpFS[vpFilesDir+"/dir/a.txt"] = &vpNode{kind: 1, inode: 801}
+	names := map[string]int{"a.txt": 801}
+	reported := vpFilesDir + "/dir"
+	inner := "null"
+	switch variant {
+	case 1:
+		reported += "/"
+	case 2:
+		vpFS[vpFilesDir+"/dir/link.txt"] = &vpNode{kind: 3, target: "a.txt"}
+		names["link.txt"] = 801
+	case 3:
+		vpFS[vpFilesDir+"/other.txt"] = &vpNode{kind: 1, inode: 802}
+		vpFS[vpFilesDir+"/dir/link.txt"] = &vpNode{kind: 3, target: "../other.txt"}
+		names["link.txt"] = 802
+	case 4:
+		inner = `"` + vpFilesDir + `/dir/a.txt"`
+	}
+	vpOutsRaw = []byte(`{"dir":"` + reported + `","inner":` + inner + `}`)
+	ps.node.forks[0].postProcess(context.Background())
+	verifCover("directory output post-processed")
+	if vpWritten == nil {
+		verifAssert(false, "C13: the rewritten _outs is stored")
+		return
+	}
+	doc, merr := vpWritten.MarshalJSON()
+	if merr != nil {
+		verifAssert(false, "C13: the rewritten _outs encodes")
+		return
+	}
+	var top LazyArgumentMap
+	if vjUnmarshal(doc, &top) != nil {
+		verifAssert(false, "C13: the rewritten _outs has the shape of the outputs")
+		return
+	}
+	q, isStr := vpUnquote(vjTrim(top["dir"]))
+	verifAssert(isStr, "C13: an existing directory output is still named in the rewritten _outs")
+	if !isStr {
+		return
+	}
+	known := ""
+	switch variant {
+	case 1:
+		known = "C13-path-output-trailing-slash"
+	case 3:
+		known = "C13-path-output-links-leaving-it"
+	case 4:
+		known = "C13-file-output-inside-path-output"
+	}
+	if known != "" && verifKnown(known) {
+		return
+	}
+	_, d := vpResolve(path.Clean(q))
+	verifAssert(d != nil && d.kind == 2, "C13: the rewritten _outs designates the directory")
+	verifAssert(strings.HasPrefix(q, "/ps/outs/"), "C13: a directory output inside the pipestance is reported at its place under outs/")
+	for name, inode := range names {
+		verifAssert(vpReadThrough("/ps/outs/dir/"+name) == inode, "C13: every name inside a directory output reads the same content under outs/ as the stage wrote")
+	}
+	if variant == 4 {
+		iq, ok := vpUnquote(vjTrim(top["inner"]))
+		verifAssert(ok && vpReadThrough(iq) == 801, "C13: a file output which lies inside a directory output is still designated by the rewritten _outs")
+		verifAssert(vpReadThrough("/ps/outs/inner.txt") == 801, "C13: a file output which lies inside a directory output is available under outs/")
 	}
 }
